@@ -43,6 +43,13 @@ type callUnder struct {
 	Callee string
 }
 
+// userHandler stands for an EventHandler of the application called by the event processor: a summary that calls the
+// read paths of the cache and the client's API (what handlers are documented to do), added by lockDiscipline.
+const userHandler = "user.EventHandler"
+
+var userHandlerCalls = []string{"cache.TableCache.Table", "cache.TableCache.Tables", "cache.RowCache.Row", "cache.RowCache.Rows", "cache.RowCache.RowByModel",
+	"cache.RowCache.RowsByCondition", "cache.RowCache.Len", "client.api.List", "client.api.Get", "client.ovsdbClient.Transact", "client.ovsdbClient.Connected"}
+
 type lockExtractor struct {
 	pkg      string
 	fset     *token.FileSet
@@ -50,6 +57,7 @@ type lockExtractor struct {
 	recvType string
 	varTypes map[string]string // local heuristics: identifier -> type name
 	facts    *funcFacts
+	top      string // the top-level function the analysed body belongs to (function literals are named after it)
 }
 
 func (x *lockExtractor) baseIdent(e ast.Expr) (string, []string) {
@@ -134,6 +142,10 @@ func (x *lockExtractor) callee(call *ast.CallExpr) string {
 		}
 		return x.pkg + "." + f.Name
 	case *ast.SelectorExpr:
+		// an event handler of the application runs here: it may read the cache and use the client (userHandler)
+		if x.pkg == "cache" && (f.Sel.Name == "OnAdd" || f.Sel.Name == "OnUpdate" || f.Sel.Name == "OnDelete") {
+			return userHandler
+		}
 		base, chain := x.baseIdent(f.X)
 		if base == "" {
 			return ""
@@ -151,6 +163,8 @@ func (x *lockExtractor) callee(call *ast.CallExpr) string {
 			return "cache.TableCache." + f.Sel.Name
 		case x.pkg == "client" && last == "primaryDB":
 			return ""
+		case x.pkg == "cache" && last == "eventProcessor":
+			return "cache.eventProcessor." + f.Sel.Name
 		case x.pkg == "server" && last == "db":
 			return "inmemory.inMemoryDatabase." + f.Sel.Name
 		}
@@ -187,6 +201,15 @@ func (x *lockExtractor) apply(s lockState, call *ast.CallExpr, deferred bool) lo
 			}
 		}
 		return s
+	}
+	// a function literal handed to a call is run by it, on this goroutine, before the call returns (ForEach..., sort,
+	// once.Do): what the literal acquires is acquired under the locks held here
+	if !deferred {
+		for _, a := range call.Args {
+			if fl, ok := a.(*ast.FuncLit); ok && x.top != "" {
+				x.facts.Calls = append(x.facts.Calls, callUnder{append([]string{}, s.held...), fmt.Sprintf("%s.func@%d", x.top, x.fset.Position(fl.Pos()).Line)})
+			}
+		}
 	}
 	if c := x.callee(call); c != "" && !deferred {
 		if l, ok := lockReturning[c]; ok {
@@ -408,12 +431,13 @@ func extractLockFacts(repo, rel, pkg string, varTypes map[string]string) ([]func
 			}
 		}
 		x.facts = &funcFacts{Name: name}
+		x.top = name
 		rest := x.block(fd.Body.List, []lockState{{}})
 		x.atReturn(rest, fd.Body.Rbrace)
 		// function literals run as goroutines or handlers: analysed as functions of their own
 		ast.Inspect(fd.Body, func(n ast.Node) bool {
 			if fl, ok := n.(*ast.FuncLit); ok {
-				y := &lockExtractor{pkg: pkg, fset: fset, varTypes: varTypes, recvName: x.recvName, recvType: x.recvType}
+				y := &lockExtractor{pkg: pkg, fset: fset, varTypes: varTypes, recvName: x.recvName, recvType: x.recvType, top: name}
 				y.facts = &funcFacts{Name: fmt.Sprintf("%s.func@%d", name, fset.Position(fl.Pos()).Line)}
 				r := y.block(fl.Body.List, []lockState{{}})
 				y.atReturn(r, fl.Body.Rbrace)
